@@ -70,6 +70,12 @@ RangeLoops == [
                   SFor(EVar(It(1)), ERIndex(ERange(EInt(3), EInt(9)), EInt(2), EInt(4)), <<SPrint(EVar(It(1)))>>),
                   SFor(EVar(It(1)), EStr(<<195, 169, 97>>), <<SPrint(EIndex(EVar(It(1)), EInt(0)))>>),
                   SFor(EVar(It(1)), EBin("+", EList(<<EInt(7)>>), ERange(EInt(4), EInt(6))), <<SPrint(EVar(It(1)))>>)>>,
+  emptyarm  |-> <<SIfOf(<<Branch(EBool(TRUE), <<>>), Branch(EBool(TRUE), <<P(1)>>)>>, Else(<<P(2)>>)), P(3),
+                  SIfOf(<<Branch(EBool(FALSE), <<P(4)>>), Branch(EBool(TRUE), <<>>), Branch(EBool(TRUE), <<P(5)>>)>>, Else(<<P(6)>>)), P(7),
+                  SFor(EVar(It(1)), EList(<<EInt(1), EInt(2)>>),
+                       <<SIfOf(<<Branch(EBool(TRUE), <<>>), Branch(EBool(TRUE), <<SBreak>>)>>, Else(<<SContinue>>)), P(8)>>),
+                  SFn(Fn(1), <<>>, FALSE, <<SIfOf(<<Branch(EBool(TRUE), <<>>)>>, Else(<<SReturn(EInt(1))>>)), SReturn(EInt(2))>>),
+                  SPrint(ECall(EVar(Fn(1)), <<>>)), SIf(EBool(TRUE), <<>>), SWhile(EBool(FALSE), <<>>), P(9)>>,
   listvar   |-> <<SDecl(EVar(Xs), EList(<<EInt(1), EInt(2)>>)),
                   SFor(EVar(It(1)), EVar(Xs), <<SAssign(EVar(Xs), EBin("+", EVar(Xs), EList(<<EInt(9)>>))), SPrint(EVar(It(1)))>>),
                   SPrint(EVar(Xs))>>,
@@ -128,6 +134,9 @@ C07Params ==
     \cup { <<"mutl", m, "-", "-", "none", 0, "none">> : m \in DOMAIN Mutations }
     \cup { <<"muto", "-", "-", "-", "none", 0, "none">> }
     \cup { <<"rloop", r, "-", "-", "none", 0, "none">> : r \in DOMAIN RangeLoops }
+    \* a chain of three arms in a function body, each arm escaping or not, the arm taken by the argument;
+    \* statements follow the chain
+    \cup { <<"tail", e1, e2, e3, "none", arm, "none">> : e1 \in BOOLEAN, e2 \in BOOLEAN, e3 \in BOOLEAN, arm \in 1 .. 3 }
     \cup { <<"cond", k1, k2, g, j, pos, "none">> :
              k1 \in Loops, k2 \in {"-", "block", "ift", "elif", "forl", "while", "call"}, g \in Guards,
              j \in Jumps \ {"none"}, pos \in 0 .. 2 }
@@ -154,6 +163,14 @@ C07ProgOf(p) ==
                             SFor(EVar(It(1)), EVar(Xs), <<SPrint(EVar(It(1))), Mutations[p[2]]>>),
                             SPrint(EVar(Xs))>>
       [] p[1] = "rloop" -> RangeLoops[p[2]]
+      [] p[1] = "tail" ->
+            LET Arm(esc, n) == IF esc THEN <<P(n), SReturn(EInt(n))>> ELSE <<P(n)>> IN
+            <<SFn(Fn(1), <<EVar(It(1))>>, FALSE,
+                  <<SIfOf(<<Branch(EBin("==", EVar(It(1)), EInt(1)), Arm(p[2], 11)),
+                            Branch(EBin("==", EVar(It(1)), EInt(2)), Arm(p[3], 12))>>, Else(Arm(p[4], 13))),
+                    P(14), SBlock(<<SIfElse(EBin("==", EVar(It(1)), EInt(1)), Arm(p[2], 15), Arm(p[4], 16))>>), P(17),
+                    SReturn(EInt(18))>>),
+              SPrint(ECall(EVar(Fn(1)), <<EInt(p[6])>>))>>
       [] p[1] = "cond" -> TickDef \o <<P(5)>>
                           \o Wrap(p[2], 1, IF p[3] = "-" THEN CondBody(p[4], p[5], p[6])
                                            ELSE <<P(3)>> \o Wrap(p[3], 2, CondBody(p[4], p[5], p[6])) \o <<P(4)>>)
